@@ -124,6 +124,7 @@ def main():
     tier = a.tier if a.tier in ('quick', 'thorough') else 'quick'
     seed = int(os.environ.get('VERIF_SEED', '0') or 0)
     R = Run(a.pid, tier, seed)
+    R.dev = bool(a.no_lean)       # development runs (no Lean build/audit) never touch the committed evidence
     try:
         mod = importlib.import_module(a.pid.lower())
         if a.replay:
